@@ -396,20 +396,22 @@ impl ASN1Type {
         tlds: &BTreeMap<String, ToplevelDefinition>,
     ) -> bool {
         match self {
+            // every alternative / member is visited (`any` would stop at the first one that was linked)
             ASN1Type::Choice(c) => c
                 .options
                 .iter_mut()
-                .any(|o| o.ty.link_components_of_notation(tlds)),
+                .fold(false, |linked, o| o.ty.link_components_of_notation(tlds) || linked),
             ASN1Type::Set(s) | ASN1Type::Sequence(s) => {
                 let mut member_linking = s
                     .members
                     .iter_mut()
-                    .any(|m| m.ty.link_components_of_notation(tlds));
+                    .fold(false, |linked, m| m.ty.link_components_of_notation(tlds) || linked);
                 // TODO: properly link components of in extensions
                 // TODO: link components of Class field, such as COMPONENTS OF BILATERAL.&id
                 for comp_link in &s.components_of {
                     if let Some(ToplevelDefinition::Type(linked)) = tlds.get(comp_link) {
-                        if let ASN1Type::Sequence(linked_seq) = &linked.ty {
+                        if let ASN1Type::Sequence(linked_seq) | ASN1Type::Set(linked_seq) = &linked.ty
+                        {
                             linked_seq
                                 .members
                                 .iter()
@@ -428,7 +430,9 @@ impl ASN1Type {
                 }
                 member_linking
             }
-            ASN1Type::SequenceOf(so) => so.element_type.link_components_of_notation(tlds),
+            ASN1Type::SequenceOf(so) | ASN1Type::SetOf(so) => {
+                so.element_type.link_components_of_notation(tlds)
+            }
             _ => false,
         }
     }
